@@ -39,6 +39,7 @@ FIXED = [
  ("C18", "fix: printing a map shows the values of nested Drops and pointers", "{{ m }} printed Drop entries as Go structs ({x}) and pointer entries as memory addresses (0xc000...), so output depended on representation and memory layout (also C02)"),
  ("C18", "fix: an array or map converted to text shows the values of nested Drops", "{{ pair | downcase | size }} (string filter applied to an array holding a Drop) depended on the Go representation: the Drop was spelled as its wrapper struct"),
  ("C01", "fix: property access on a map whose keys are not strings", "{{ m.foo }} / {{ m.size }} on a map[int]string panicked in reflect.Value.MapIndex"),
+ ("C01", "fix: converting an enormous range to an array is an error", "{{ (1..9223372036854775807) | first }} (any array filter on a range of more than 2^31 elements) panicked with 'makeslice: cap out of range' or tried to allocate the whole range"),
 ]
 KNOWN = [
  # (property, key, what)
